@@ -22,6 +22,7 @@ EXPLANATION = (
     "derived positional reader (T14), literal-vs-declaration agreement of the v1->v2 upgrade key (T14), and sibling agreement of "
     "the two ParseModuleAndSourceInfoOptions literals of the manifest shortcut (T12)."
 )
+EXPLANATION += " " + 'Plus: the in-flight marker of the manifest shortcut, the v1 pragma is read from the last leading comment in recorded order.'
 NOT_DECIDED = "value-level round trip for arbitrary module infos; equality of the two graphs"
 CONFIGS = ["default", "nofastcheck"]  # thorough tier also analyses the build without fast_check / symbols
 ASSUMPTIONS = ["serde derive semantics for rename_all / tag / untagged / flatten / default / skip_serializing_if as documented"]
